@@ -240,6 +240,17 @@ pub fn oracle(sc: &Scenario, out: &Outcome) -> Vec<Violation> {
                         format!("at seq {}: SHOW CLIENTS lists {} clients of the pool, {} are connected ({:?})", e.seq, listed.len(), connected.len(), connected),
                     );
                 }
+                // nothing else may be listed: every entry is a client of the pool or the (single) admin session
+                let strangers: Vec<&serde_json::Value> = j["clients"].as_array().unwrap().iter().filter(|c| c["pool"] != "db" && c["pool"] != "pgcat").collect();
+                let admins = j["clients"].as_array().unwrap().iter().filter(|c| c["pool"] == "pgcat").count();
+                if !strangers.is_empty() || admins > 1 {
+                    push(
+                        &mut vs,
+                        "C18.clients-listed",
+                        "phantom".to_string(),
+                        format!("at seq {}: SHOW CLIENTS lists entries that are no connected client: {:?} ({} admin entries)", e.seq, strangers, admins),
+                    );
+                }
                 for sp in j["show_pools"].as_array().unwrap() {
                     if sp["db"] != "db" {
                         continue;
